@@ -68,6 +68,7 @@ def fill(W, td, ms, rel):
         payload = {'nopayload': None, 'tree': 'tree', 'link': 'ldir', 'dangling': 'ldang'}.get(k, 'file')
         scen.add_trashed(W, td, nm, pv, date, payload=payload, tag=nm)
     W.file(td + '/files/orphan', 'orphan\n')
+    W.file(td + '/files/nu8-\udcff', 'a payload without info whose name is not valid UTF-8\n')
     W.file(td + '/directorysizes', '4096 1600000000 e0\n')          # size cache written by other implementations (spec 1.0)
 
 
@@ -130,6 +131,10 @@ def run_dry(c):
             par = p.rsplit('/', 1)[0]
             if par in after_real:          # top-most removed path
                 removed_top.add(p)
+    # a name that cannot be written as it is, is announced escaped: map it back to the entry it stands for
+    esc = {p.encode('ascii', 'backslashreplace').decode('ascii'): p
+           for p in before if any(0xd800 <= ord(ch) <= 0xdfff for ch in p)}
+    announced = {esc.get(p, p) for p in announced}
     announced_existing = {p for p in announced if p in before}
     nt = '%s|%s|removed=%s' % (dcls, c['flags'], 'some' if removed_top else 'none')
     if changed:
